@@ -3,6 +3,7 @@
 mod c06;
 mod c07;
 mod c08;
+mod c09;
 mod iterx;
 mod kinds;
 mod layouts;
@@ -13,6 +14,7 @@ fn main() {
         "C06" => c06::run(vp_core::Ctx::from_env("C06")),
         "C07" => c07::run(vp_core::Ctx::from_env("C07")),
         "C08" => c08::run(vp_core::Ctx::from_env("C08")),
+        "C09" => c09::run(vp_core::Ctx::from_env("C09")),
         _ => vp_core::machinery_error(&format!("mc-tensor: unknown property '{prop}'")),
     }
 }
